@@ -124,7 +124,7 @@ PROPS_EXTRA = {
     'C07': ['Props.CodecFacts'],
     'C08': ['Props.CodecFacts', 'Props.GenMisc'],
     'C09': ['Props.GenFetcher', 'Props.GenHeads', 'Props.GenLoaders', 'Props.GenNewLog'],
-    'C10': ['Props.GenFetcher', 'Props.GenLoaders'],
+    'C10': ['Props.GenFetcher', 'Props.GenLoaders', 'Props.GenCapstoneLoad'],
     'C11': ['Props.GenFetcher'],
     'C12': ['Props.CodecFacts', 'Props.GenFetcher'],
     'C14': ['Props.GenHeads', 'Props.GenJoin', 'Props.GenJoinTail', 'Props.GenCapstoneJoin'],
